@@ -94,11 +94,11 @@ func main() {
 		// MODEL-HAS-EXTRA is a note, not an error: the real side is a free-running sample (which outcomes it
 		// shows depends on the machine and its load), so an outcome it did not show is no evidence against the
 		// model; the error that matters is an outcome of the real runtime that the model cannot produce.
-		if status != "ok" && status != "MODEL-HAS-EXTRA" {
-			bad++
-		}
-		if status == "MODEL-HAS-EXTRA" {
+		if status == "MODEL-HAS-EXTRA" && !Deterministic[p.Name] {
 			status = "ok(real-sample-narrower)"
+		}
+		if status != "ok" && status != "ok(real-sample-narrower)" {
+			bad++
 		}
 		fmt.Printf("%-40s %-18s model=%v real=%v (execs %d, hb-states %d)\n", p.Name, status, keys(outcomes), keys(real), st.Execs, st.States)
 	}
